@@ -35,8 +35,8 @@ Proof. exact make_query_forgets. Qed.
 
 (* ... and the search treats the output as append-only: running with more text already
    printed gives the same node, answer and cut signal, and the same text after the prefix. *)
-Theorem C22_output_is_append_only : forall kb pre fuel nd w,
-  next kb fuel nd (wpre pre w) = rpre pre (next kb fuel nd w).
+Theorem C22_output_is_append_only : forall kb bf pre fuel nd w,
+  next kb bf fuel nd (wpre pre w) = rpre pre (next kb bf fuel nd w).
 Proof. exact next_frame. Qed.
 
 (* non-vacuity: n(1). n(2). |- n($X) from a world left behind by a timed-out query
